@@ -916,6 +916,12 @@ class BosonicModes:
             if self.active[i] is None:
                 raise ValueError("Cannot apply measurement, mode does not exist")
 
+        if len(modes) == len(self.get_modes()):
+            # all modes are measured, there is nothing left to condition: reset them to vacuum
+            for i in modes:
+                self.loss(0, i)
+            return
+
         expind = np.concatenate((2 * np.array(modes), 2 * np.array(modes) + 1))
         mp = self.get_covmat()
         A, B, C = ops.chop_in_blocks_multi(mp, expind)
@@ -935,8 +941,10 @@ class BosonicModes:
         reweights = np.exp(-0.5 * reweights_exp_arg) / (
             np.sqrt(np.linalg.det(2 * np.pi * (C + covmat)))
         )
-        self.weights *= reweights
-        self.weights /= np.sum(self.weights)
+        # not in place: the weights may be real while the reweighting factors are complex,
+        # and state objects handed out earlier share the old array
+        self.weights = self.weights * reweights
+        self.weights = self.weights / np.sum(self.weights)
 
         self.means = self.means[abs(self.weights) > 0]
         self.covs = self.covs[abs(self.weights) > 0]
@@ -976,7 +984,8 @@ class BosonicModes:
             raise ValueError("Cannot apply heterodyne measurement, mode does not exist.")
 
         covmat = self.hbar * np.identity(2) / 2
-        vals = np.array([alpha_val.real, alpha_val.imag])
+        # quadrature values corresponding to the complex amplitude alpha_val
+        vals = np.sqrt(2 * self.hbar) * np.array([np.real(alpha_val), np.imag(alpha_val)])
         self.post_select_generaldyne(covmat, [mode], vals)
 
     def apply_u(self, U):
